@@ -119,6 +119,21 @@ let () = iter_lines (fun line ->
   match words line with
   | [ "dec"; h ] -> (try dec_bytes (bytes_of_hex h) with Failure _ -> print_endline "reject-syntax")
   | [ "file"; p ] -> dec_bytes (bytes_of_file p)
+  | [ "affsearch"; dlo; dhi; alo; ahi ] ->
+      (* single-block restart intervals (default conditioning) whose Annex D code string ends in X'FF' *)
+      let b = Buffer.create 4096 in
+      Buffer.add_string b "ff";
+      for dc = int_of_string dlo to int_of_string dhi do
+        for a1 = int_of_string alo to int_of_string ahi do
+          let zz = z_of_int dc :: z_of_int a1 :: List.init 62 (fun _ -> Z0) in
+          let cond = ((((Z0, Z0), z_of_int 1), Z0), z_of_int 5) in
+          let bytes = aenc_interval [cond] (nat_of_int 1) [(nat_of_int 0, zz)] in
+          (match List.rev bytes with
+           | last :: _ when int_of_z last = 255 -> Buffer.add_string b (Printf.sprintf " %d,%d" dc a1)
+           | _ -> ())
+        done
+      done;
+      print_endline (Buffer.contents b)
   | "paemit" :: toks -> (try emit_line false true true toks with Invalid_argument _ | Failure _ -> print_endline "fail")
   | "emit" :: toks -> (try emit_line false false false toks with Invalid_argument _ | Failure _ -> print_endline "fail")
   | "lemit" :: toks -> (try emit_line true false false toks with Invalid_argument _ | Failure _ -> print_endline "fail")
